@@ -41,6 +41,9 @@ CHECKS = {
  "C06": (MC, "explicit-state breadth-first search over the real offset manager (successor = history replayed on a fresh instance + one event, visited set on a canonical state key validated by an unpruned differential search) under the controlled scheduler",
          "All event sequences (MarkOffset/ResetOffset with offsets cur-1..cur+2, auto-commit tick or manual Commit, the om.flush.sent gate, every coordinator answer incl. per-partition error classes, missing block, connection loss with/without storing, Close, second Close) to depth 7 (quick) / 9 (thorough) for 1 partition (auto and manual commit) and depth 5/7 for 2 partitions with retention; invariants in every state: committed pairs are marked pairs, no unexplained backwards store, Mark never lowers / Reset never raises, fresh NextOffset, position!=store => dirty, after a clean Close the store equals the latest mark.",
          "state key = bridge dump of the manager + coordinator store + request in flight + parked committer's snapshot + connection states + call history; its soundness is checked by the unpruned search two levels shallower (identical key sets required) and by run-to-run stability of the state count.", "§6 C06"),
+ "C07": (MC, GXT,
+         "1-2 real ConsumerGroup members (own clients) against a simulated group coordinator (join/sync/heartbeat/leave state machine, commit admission by member/generation) and partition leaders; handler behaviours {returns at once, reads k then returns, reads until closed, Setup error}; end triggers {context cancel, second member joins, fencing answers, claim ends, Close}; strategies range/round-robin/sticky; committed offsets none/valid/out of range; all executions with <=B deviations (B=2 quick for one member, 1-2 for two); oracle: per-session life-cycle automaton (Setup once, <=1 ConsumeClaim per claimed partition, Cleanup after all claims, final commit before Consume returns), claim start offsets, identities carried by Sync/Heartbeat/OffsetCommit, fresh identity after fencing, no record skipped across sessions.",
+         "heartbeats, fetch rounds, claim start and subscriptions are gated so that the session's goroutines never race for one connection within a step; time passes only while every ticker-driven loop is idle; sticky assignment only with one member (its plan depends on Go map order with two).", "§6 C07"),
 }
 NOT_YET = {}
 props = [json.loads(l) for l in open(os.path.join(ROOT, "properties.jsonl"))]
